@@ -1,6 +1,6 @@
 import BadgerModel.Driver.Loop
 import BadgerModel.Driver.Wm
-/-! `bmd_wm <engine>`: line-protocol driver (see CONVENTIONS.md). Engines: `watermark`. -/
+/-! `bmd_wm <engine>`: line-protocol driver (see CONVENTIONS.md). Engines: `watermark`, `oracle`, `txn`. -/
 open Badger.Driver
 
 def main (args : List String) : IO UInt32 := do
@@ -8,4 +8,6 @@ def main (args : List String) : IO UInt32 := do
   let stdout ← IO.getStdout
   match args with
   | ["watermark"] => statefulLoop stdin stdout wmStep Badger.WM.init; return 0
+  | ["oracle"] => statefulLoop stdin stdout orcStep (Badger.Sys.opened false true 0); return 0
+  | ["txn"] => statefulLoop stdin stdout txnStep ({} : TxnDrv); return 0
   | _ => IO.eprintln "usage: bmd_wm <watermark|oracle|txn>"; return 2
